@@ -419,12 +419,14 @@ def build(k, skel: Skel):
         b.funcs[name] = f
         functions[name] = stochastic(f) if role == "stoch" else f
     b.model = Model(n_periods=skel.n_periods, functions=functions, choices=choices, states=states)
+    if getattr(skel, "filters_may_reject_everything", False):
+        return b  # structures of the rejection rules: no hypothesis about their filters
     if k.mode == "native":
         # sampled filters that leave a period without any admissible combination: not a supported model
         from .solve import skip_unsupported_filters
 
         skip_unsupported_filters(k, b, skel)
-    elif skel.names_with_role("filter") and not getattr(skel, "filters_may_reject_everything", False):
+    elif skel.names_with_role("filter"):
         # precondition of every claim about a model with filters (since the fix of F11 the library rejects
         # the opposite with a ValueError when the spaces are created): in every period the filters admit at
         # least one combination of restricted states and choices
